@@ -120,7 +120,8 @@ def main(argv: List[str]) -> int:
         if flag in ('MISSED', 'FALSE-ALARM', 'analysis-error', 'harness-error'):
             bad += 1
         print(f"{r['id']:<42} {flag:<18} {','.join(r.get('rules', []))} {r.get('why', '')}")
-    print(f'{len(res)} cases, {bad} need attention')
+    stale = sum(1 for r in res if r['status'] == 'not-applicable')
+    print(f'{len(res)} cases, {bad} need attention, {stale} stale anchors')
     return 1 if bad else 0
 
 
